@@ -97,7 +97,7 @@ func VpC20Faults() {
 		injected++
 	}
 	vp.Assert(injected == 0 || visible+vpErrLogs > 0, "a file-system or audit failure was swallowed: no returned error, no error variable, no error log entry")
-	vp.Assert(vp.LiveFiles() == 0 || (errClose != nil && vp.FaultedOn("remove")), "a temporary file remains after Close although its removal did not fail")
+	vp.Assert(vp.LiveFiles() == 0 || vp.FaultedOn("remove"), "a temporary file remains after Close although its removal did not fail")
 
 	// the recycled object works normally (no faults from here on)
 	vp.FaultInjection(0)
